@@ -95,6 +95,17 @@ def push_sequences(world, e, limit=64):
                 if len(res) > limit:
                     break
             return res
+        if x.op == "call" and x.info == "std::slice::concat":
+            # [a, b, ..].concat(): the concatenation of the parts' sequences
+            parts = world.ident(x.args[0], expand_ws=False)
+            if parts.op == "call" and parts.info == "vec!" and parts.args[0].op == "array":
+                res = [[]]
+                for part in parts.args[0].args:
+                    res = [s + t for s in res for t in go(part, depth + 1)]
+                    if len(res) > limit:
+                        break
+                return res
+            return [[x]]
         if x.op == "call" and x.info == "vec!":
             arr = x.args[0]
             return [list(arr.args)] if arr.op == "array" else [[x]]
